@@ -876,6 +876,8 @@ class Interp:
             return SlicePtr(v.items, 0, len(v.items))
         if isinstance(v, SlicePtr):
             return v
+        if isinstance(v, Opaque) and getattr(v, "as_list", None) is not None:
+            return SlicePtr(v.as_list(), 0, len(v.as_list()))
         raise Unanalysable("not sliceable: %r" % (v,))
 
     def index_place(self, cur, idx, from_end=False):
@@ -1303,6 +1305,8 @@ def as_iter(interp, x):
             if isinstance(x0, Ptr):
                 return ListIt([Agg([Ptr(pair, 0), Ptr(pair, 1)], "tuple") for pair in x.items])
             return ListIt([Agg([pair[0], pair[1]], "tuple") for pair in x.items])
+    if isinstance(x, Opaque) and getattr(x, "as_list", None) is not None:
+        return ListIt([Ptr(x.as_list(), i) for i in range(len(x.as_list()))] if isinstance(x0, Ptr) else list(x.as_list()))
     raise Unanalysable("cannot iterate %r" % (x0,))
 
 
